@@ -14,7 +14,26 @@ OPS = {"!=": "OP_NE", "==": "OP_EQ", "<": "OP_LT", ">": "OP_GT", "<=": "OP_LE", 
 def build(src):
     u = Unit("hash", src)
     u.rules = [Rule("D2.auto", r"\bauto\b", "__auto_type")]
-    u.add(F("hc_impl", H, r"inline void hash_combine_impl\(HashT& seed, HashT value\)", "void hc_impl(size_t *seed, size_t value)", P,
+    # the type of the by-value parameter is read from the source: a narrower integer type than the hash type truncates every
+    # component hash at the call (implicit conversion), which the C text renders as an explicit conversion on entry
+    m = re.search(r"inline void hash_combine_impl\(HashT& seed, (?:const\s+)?([\w:]+(?:\s+[\w:]+)*?)\s*(?:const\s*)?&?\s*value\)", src.text(H))
+    if not m:
+        raise ExtractionError("hash_combine_impl(HashT& seed, <type> value) not found")
+    vty = re.sub(r"\bstd::", "", " ".join(m.group(1).split()))
+    narrow = {"HashT": None, "size_t": None, "unsigned long": None, "uint64_t": None, "unsigned long long": None,
+              "unsigned": "unsigned", "unsigned int": "unsigned", "uint32_t": "unsigned", "int": "int", "int32_t": "int", "long": "long", "int64_t": "long",
+              "uint16_t": "unsigned short", "unsigned short": "unsigned short", "uint8_t": "unsigned char", "unsigned char": "unsigned char"}
+    if vty not in narrow:
+        raise ExtractionError("hash_combine_impl: parameter type %r of `value` has no C rendering" % vty)
+
+    class ValueConv:
+        name = "D3.param-conversion"
+
+        def apply(self, text):
+            if narrow[vty] is None:
+                return text, 1
+            return "\n    value = (size_t)(%s)value;   /* implicit conversion to the declared parameter type `%s` */%s" % (narrow[vty], vty, text), 1
+    u.add(F("hc_impl", H, re.escape(m.group(0)), "void hc_impl(size_t *seed, size_t value)", P, pre=[ValueConv()],
             rules=[Rule("D3.refparam.seed", r"(?<![\w.>&])seed\b", "(*seed)")]))
     # tuple recursion
     base = src.find(H, r"hash_combine_tuple\(std::size_t&, T const&\)")
